@@ -53,6 +53,10 @@ Allowed(ev, b) ==
     [] ev.op = "removestyling"  -> RemoveStylingOK(ev.pre, ev.post)
     [] ev.op = "force"          -> ForceDurationOK(ev.pre, ev.a, ev.b # 0, ev.post)
 
+\* C13: "the optimized list can still be written to every format and read back with the same cues as before":
+\* whichever format wrote and re-read the list before the call does so after it, with the same cues
+WriteBackOK(wb) == \A i \in DOMAIN wb : wb[i].preres = "ok" => (wb[i].postres = "ok" /\ wb[i].postcues = wb[i].precues)
+
 PropertyOf(op) ==
   CASE op \in {"add", "add-inv"} -> "C09" [] op = "fragment" -> "C10" [] op \in {"unfragment", "unfragment-inv"} -> "C11"
     [] op \in {"order", "merge"} -> "C12" [] op \in {"optimize", "removestyling"} -> "C13" [] op = "force" -> "C14"
@@ -63,6 +67,7 @@ Reason(i) ==
   ELSE IF ~ev.first /\ (Cur(i) # ev.pre \/ Cur2(i) # ev.pre2) THEN "discontinuity"
   ELSE IF ~Pre(ev) THEN "precondition"
   ELSE IF ~Allowed(ev, Trace[HistStart(i)].pre) THEN "relation"
+  ELSE IF ev.op = "optimize" /\ ~WriteBackOK(ev.wb) THEN "optimized-list-no-longer-written-and-read-back-as-before"
   ELSE "ok"
 
 Init == l = 1
